@@ -66,7 +66,7 @@ CHECKS = {
  "C14": dict(cat="other", tech="closed-form summary of div(n, Denominator<T>(d)) from optimised IR; truth-table equivalence with truncating division for the 8-bit types (all 2^16 pairs), boundary-lattice refutation search and UB obligations for wider types; bisimulation of operator forms",
    text="PARTIAL CLAIM, stated as such. Complete for Denominator<uint8_t>/<int8_t>: the closed form in (n, d) is evaluated on every (n, d) pair of the domain against C++ truncating division (this is the property's own exhaustive quantifier for 8-bit types, applied to the summary, not to the program). For 16/32/64-bit types the same comparison runs on the boundary lattice only: a difference or an undefined operation (signed overflow, over-wide shift) on a valid (n, d) is a refutation with its input; nothing found is UNDECIDED, not a pass. / % /= %= are tied to div by body equality, value() must return d, all members must exist.",
    note=TB + "; correctness of the Granlund-Montgomery constants beyond 8 bits is NOT decided; one known finding (d = INT32_MIN)", ref="11.2/C14"),
- "C12": dict(cat="other", tech="closed-form summary from optimised IR compared with exact <cmath> reference functions on rationals (all four rounding modes); forwarding rule for the width-1 / scalar code; refutation by witness only; frexp/ldexp/scalbn compare bit patterns (sign of zero results significant, NaNs equal), the others compare numbers; exponent sweep for one-operand functions; default and -frounding-math compilation",
+ "C12": dict(cat="other", tech="closed-form summary from optimised IR compared with exact <cmath> reference functions on rationals (all four rounding modes); forwarding rule for the width-1 / scalar code; fmax/fmin emulations built from float compares and selects are decided by a finite case analysis over the six order types of (a, b); otherwise refutation by witness only; frexp/ldexp/scalbn compare bit patterns (sign of zero results significant, NaNs equal), the others compare numbers; exponent sweep for one-operand functions; default and -frounding-math compilation",
    text="PARTIAL CLAIM, stated as such. frexp (significand and stored exponent), ldexp, scalbn, ilogb, logb, frac, fmax, fmin, fdim of every float vector type x configuration are summarised into closed forms. Decided (HOLDS) only where the body is the C library function itself (width-1 vectors forward to libm: the call is the specification). For the SIMD emulations built from bit operations and float arithmetic the closed form is evaluated exactly (rational arithmetic, four rounding modes) on a lattice of IEEE boundary values against reference implementations of the <cmath> definitions: a difference is a refutation with its input (found on the pinned tree: frexp(-0.0f), ldexp with extreme exponents - replayed on hardware); no difference is UNDECIDED, never a pass. AVX-512 getexp/getmant/scalef/fixupimm forms are unmodelled (UNDECIDED).",
    note=TB + "; floats compared as numbers (+0 == -0, NaN == NaN); fdim not judged for NaN operands or inf-inf; glibc values of FP_ILOGB0/FP_ILOGBNAN", ref="11.2/C12"),
 }
